@@ -397,6 +397,30 @@ class _Unprintable:
     __str__ = __repr__
 
 
+class _CustomActionError(Exception):
+    pass
+
+
+def _asyncio_timeout():
+    import asyncio
+    return asyncio.TimeoutError("scripted timeout")
+
+
+# ordinary `Exception` subclasses an action may raise: all must be contained alike.  BaseException
+# subclasses (asyncio.CancelledError, KeyboardInterrupt, SystemExit) legitimately propagate: not here.
+EXC_FAMILY = {
+    "XE": lambda: Exception("scripted fault"),
+    "XV": lambda: ValueError("scripted fault"),
+    "XK": lambda: KeyError("scripted fault"),
+    "XY": lambda: TypeError("scripted fault"),
+    "XO": lambda: OSError(5, "scripted I/O error"),
+    "XT": lambda: TimeoutError("scripted timeout"),
+    "XAT": _asyncio_timeout,
+    "XC": lambda: ConnectionError("scripted connection error"),
+    "XU": lambda: _CustomActionError("scripted fault"),
+}
+
+
 def make_exception(kind):
     """X: plain RuntimeError; XS: __str__ raises; XR: __repr__ and __str__ raise;
     XA: non-string / unprintable args.  (BaseException subclasses such as KeyboardInterrupt are
@@ -407,6 +431,8 @@ def make_exception(kind):
         return _ReprRaises()
     if kind == "XA":
         return KeyError(123, _Unprintable(), {"k": _Unprintable()})
+    if kind in EXC_FAMILY:
+        return EXC_FAMILY[kind]()
     return RuntimeError("scripted fault")
 
 
